@@ -124,6 +124,12 @@ pub fn build_workload_biased(
         }
     };
     let mut cfg = QueryCfg::draw(&mut tapes.query, bias_fold_count);
+    if bias_fold_count {
+        cfg.f_fold = true;
+        cfg.f_count = true;
+        cfg.max_vertices = cfg.max_vertices.max(3);
+        cfg.max_depth = cfg.max_depth.max(2);
+    }
     if bias_tags {
         cfg.bias_tags = true;
         cfg.f_tags = true;
